@@ -4,6 +4,7 @@ import (
 	"fmt"
 	"sort"
 	"strings"
+	"go/token"
 	"go/types"
 
 	"golang.org/x/tools/go/ssa"
@@ -93,7 +94,15 @@ func (e *Exec) modOfInstr(in ssa.Instruction, depth int, ms *modSet) {
 			ms.arrs[n] = true
 		}
 	case *ssa.Send:
-		ms.ghosts["*chan"] = true
+		e.modOfChan(x.Chan, true, ms)
+	case *ssa.Select:
+		for _, stt := range x.States {
+			e.modOfChan(stt.Chan, stt.Dir == types.SendOnly, ms)
+		}
+	case *ssa.UnOp:
+		if x.Op == token.ARROW {
+			e.modOfChan(x.X, false, ms)
+		}
 	case ssa.CallInstruction:
 		c := x.Common()
 		if b, ok := c.Value.(*ssa.Builtin); ok {
@@ -190,6 +199,39 @@ func (e *Exec) modOfInstr(in ssa.Instruction, depth int, ms *modSet) {
 			return
 		}
 		ms.all = true
+	}
+}
+
+// modOfChan: a send extends, a receive advances the ghost log of the channel.
+// The channel is identified when it is loaded from a declared field; otherwise
+// every log is taken to be affected.
+func (e *Exec) modOfChan(ch ssa.Value, send bool, ms *modSet) {
+	var match func(cl *ChanLog) bool
+	if u, ok := ch.(*ssa.UnOp); ok {
+		if fa, ok := u.X.(*ssa.FieldAddr); ok {
+			if stt, T := structOf(fa.X.Type()); stt != nil {
+				name := fieldArrName(T, stt.Field(fa.Field).Name())
+				match = func(cl *ChanLog) bool {
+					var pk *types.Package
+					if sp := e.P.SPkgs[cl.PkgPath]; sp != nil {
+						pk = sp.Pkg
+					}
+					t := resolveTypeIn(e.P, pk, cl.Type)
+					return t != nil && fieldArrName(t, cl.Field) == name
+				}
+			}
+		}
+	}
+	for _, cl := range e.P.CS.ChanLogs {
+		if match != nil && !match(cl) {
+			continue
+		}
+		if send {
+			ms.ghosts[cl.N] = true
+			ms.ghosts[cl.At] = true
+		} else if cl.Recv != "" {
+			ms.ghosts[cl.Recv] = true
+		}
 	}
 }
 
